@@ -40,9 +40,10 @@ class State:
         self.has_events = has_events
         self.viz = viz
         self.force_cfg = False
+        self.nfiles = 2          # number of source files that contain commands (1..6)
 
     def key(self):
-        return json.dumps([self.attrs, self.has_cmds, self.has_events, self.viz], sort_keys=True)
+        return json.dumps([self.attrs, self.has_cmds, self.has_events, self.viz, self.nfiles], sort_keys=True)
 
 
 def render(st):
@@ -160,7 +161,15 @@ pub fn tick(window: tauri::Window) {
     }
     if a["type_mapping"]:
         cfg["type_mappings"] = {"PathBuf": "string"}
-    files = {
+    if st.nfiles == 1:
+        a_rs = a_rs + "\n" + b_rs.replace("use crate::models::*;\n", "")
+        b_rs = "// moved into a.rs\n"
+    files = {}
+    for k in range(3, st.nfiles + 1):
+        files[PROJ_REL + "/src/cmds/extra/m%d.rs" % k] = (
+            "use serde::{Deserialize, Serialize};\n\n#[derive(Serialize, Deserialize)]\npub struct Item%d {\n    pub label: String,\n    pub next: Option<u32>,\n}\n\n"
+            "%spub fn item_%d(item: Item%d) -> Vec<Item%d> {\n    vec![item]\n}\n" % (k, cmd, k, k, k))
+    files.update({
         PROJ_REL + "/src/models.rs": models,
         PROJ_REL + "/src/cmds/a.rs": a_rs,
         PROJ_REL + "/src/cmds/deep/b.rs": b_rs,
@@ -169,7 +178,7 @@ pub fn tick(window: tauri::Window) {
         PROJ_REL + "/target/debug/build/decoy.rs": "#[tauri::command]\npub fn decoy_in_target() {}\n",
         PROJ_REL + "/README.md": "not rust\n",
         "typegen.json": json.dumps(cfg, indent=1, sort_keys=True),
-    }
+    })
     return files
 
 
@@ -254,6 +263,20 @@ def parse_strace(path, cwd):
     return evs
 
 
+def out_meta(outdir):
+    """(mtime_ns, size, inode, sha1) of every regular file directly in the output directory"""
+    res = {}
+    if not os.path.isdir(outdir):
+        return res
+    for n in os.listdir(outdir):
+        p = os.path.join(outdir, n)
+        if os.path.isfile(p):
+            st = os.stat(p)
+            res[n] = (st.st_mtime_ns, st.st_size, st.st_ino, file_hash(p))
+    res["."] = (os.stat(outdir).st_mtime_ns,)
+    return res
+
+
 class Sandbox:
     def __init__(self, root, state, config_name="typegen.json"):
         self.root = root
@@ -307,6 +330,21 @@ class Sandbox:
             os.remove(p)
         self.events.append({"event": "Env", "kind": "lose", "what": name})
 
+    def env_corrupt(self, f):
+        name = FILE_OF.get(f, f)
+        p = os.path.join(self.root, OUT_REL, name)
+        with open(p, "w") as fh:
+            fh.write("{ this is not a cache record")
+        self.events.append({"event": "Env", "kind": "corrupt", "what": name})
+
+    def env_tamper(self, f):
+        """overwrite a generated file with foreign content of the same name (C14: force must rewrite it)"""
+        name = FILE_OF.get(f, f)
+        p = os.path.join(self.root, OUT_REL, name)
+        with open(p, "w") as fh:
+            fh.write("// tampered\n")
+        self.events.append({"event": "Env", "kind": "lose", "what": name})
+
     def env_place(self, name, text="foreign\n"):
         p = os.path.join(self.root, OUT_REL, name)
         os.makedirs(os.path.dirname(p), exist_ok=True)
@@ -354,22 +392,23 @@ class Sandbox:
         return variants
 
     # ---- runs
-    def run(self, driver="cli", forced=False, fault=None, probe_skip=False, extra_args=None):
-        """fault: None | (kind, fileKey) with kind in failopen/failwrite/crash"""
+    def run(self, driver="cli", flag=False, cfg=False, fault=None, probe_skip=False, extra_args=None):
+        """flag: --force on the command line (CLI); cfg: force:true in the configuration file.
+        fault: None | (kind, fileKey) with kind in failopen/failwrite/crash"""
         self.runs += 1
+        forced = bool(flag or cfg)
+        if bool(cfg) != self.state.force_cfg:
+            self.state.force_cfg = bool(cfg)
+            self.write_state()
         before = tree_hashes(self.root)
         strace_out = os.path.join(os.path.dirname(self.root), os.path.basename(self.root) + ".strace")
         if os.path.exists(strace_out):
             os.remove(strace_out)
         if driver == "cli":
-            cmd = [C.CLI, "tauri-typegen", "generate", "-c", "typegen.json"] + (["--force"] if forced else [])
+            cmd = [C.CLI, "tauri-typegen", "generate", "-c", "typegen.json"] + (["--force"] if flag else [])
             if extra_args:
                 cmd += extra_args
         elif driver == "build":
-            if forced != self.state.force_cfg:
-                self.state.force_cfg = forced
-                self.write_state()
-                before = tree_hashes(self.root)
             cmd = [C.TTH, "build"]
         else:
             raise ValueError(driver)
@@ -391,8 +430,13 @@ class Sandbox:
                 inj = "inject=write:signal=KILL"
                 tr = "trace=openat,write"
                 injected_kill = True
-            st = ["strace", "-f", "-qq", "-o", strace_out, "-P", target, "-e", tr, "-e", inj]
-        self.events.append({"event": "RunStart", "driver": driver, "forced": bool(forced),
+            # -P matches the literal path argument when the file does not exist yet: give the
+            # spellings the tool uses (output_path + "/" + name, relative to the sandbox root) too
+            rel1 = "./" + OUT_REL + "/" + FILE_OF[fkey]
+            rel2 = OUT_REL + "/" + FILE_OF[fkey]
+            st = ["strace", "-f", "-qq", "-o", strace_out, "-P", target, "-P", rel1, "-P", rel2, "-e", tr, "-e", inj]
+        before_meta = out_meta(os.path.join(self.root, OUT_REL))
+        self.events.append({"event": "RunStart", "driver": driver, "forced": bool(forced), "flag": bool(flag), "cfg": bool(cfg),
                             "fault": "%s@%s" % fault if fault else "none"})
         env = dict(os.environ)
         env.pop("RUST_BACKTRACE", None)
@@ -415,6 +459,11 @@ class Sandbox:
         outdir = os.path.normpath(os.path.join(self.root, OUT_REL))
         cfgpath = os.path.normpath(os.path.join(self.root, "typegen.json"))
         sysevs = parse_strace(strace_out, self.root)
+        if fault and fault[0] in ("failwrite", "crash") and os.path.exists(strace_out):
+            # with -P only the target's descriptors are traced: a failing / killed write() belongs to it
+            txt = open(strace_out, errors="replace").read()
+            if re.search(r"write\(\d+,.*\)\s+=\s+(-1|\?)", txt) or "killed by SIGKILL" in txt:
+                sysevs.append({"op": "write", "path": os.path.normpath(target), "ok": False, "errno": "ENOSPC"})
         seen_fault_write = set()
         for e in sysevs:
             if not e["path"].startswith(os.path.normpath(self.root)) and not e["path"].startswith("/tmp/nonexistent"):
@@ -458,6 +507,8 @@ class Sandbox:
         self.events.append({"event": "RunEnd", "status": status, "upToDate": bool(up), "exit": rc,
                             "injectedKill": injected_kill, "wroteNothing": bool(wrote_nothing)})
         snap = self.snapshot(before, probe_skip=probe_skip or status != "ok", driver=driver)
+        after_meta = out_meta(os.path.join(self.root, OUT_REL))
+        snap["outChanged"] = sorted(n for n in set(before_meta) | set(after_meta) if before_meta.get(n) != after_meta.get(n))
         self.events.append(snap)
         if os.path.exists(strace_out):
             os.remove(strace_out)
@@ -509,7 +560,7 @@ class Sandbox:
             shutil.rmtree(tmp, ignore_errors=True)
 
 
-def replay_history(root, hist, has_events, viz, case, driver_override=None):
+def replay_history(root, hist, has_events, viz, case, driver_override=None, nfiles=2):
     """hist: list of TLC tuples (["edit",c] / ["events",b] / ["commands",b] / ["lose",f] / ["place","probe"] /
     ["run",driver,forced,faultkind,at] / ["end",status,skipped]).  Returns (events, predicted_vs_real list)."""
     # has_events / viz are the FINAL values TLC printed; a toggle entry carries the value AFTER the
@@ -524,6 +575,7 @@ def replay_history(root, hist, has_events, viz, case, driver_override=None):
             viz = h[1] not in truthy
             break
     st = State(has_events=has_events, viz=viz)
+    st.nfiles = nfiles
     sb = Sandbox(root, st)
     sb.events.append({"event": "Reset", "case": case})
     cmp = []
@@ -542,11 +594,16 @@ def replay_history(root, hist, has_events, viz, case, driver_override=None):
             sb.env_lose(h[1])
         elif k == "place":
             sb.env_place(FILE_OF[h[1]])
+        elif k == "corrupt":
+            sb.env_corrupt(h[1])
+        elif k == "tamper":
+            sb.env_tamper(h[1])
         elif k == "run":
             driver = driver_override or h[1]
-            forced = h[2] in (True, "TRUE")
-            fault = None if h[3] == "none" else (h[3], h[4])
-            pending = sb.run(driver=driver, forced=forced, fault=fault)
+            flag = h[2] in truthy
+            cfg = h[3] in truthy
+            fault = None if h[4] == "none" else (h[4], h[5])
+            pending = sb.run(driver=driver, flag=flag, cfg=cfg, fault=fault)
         elif k == "end":
             if pending is not None:
                 cmp.append({"predicted": [h[1], h[2] in (True, "TRUE")], "real": [pending["status"], pending["upToDate"]]})
